@@ -1,5 +1,5 @@
-(** C09 x C07 — the file store: statement (NOT proved) that the sequential specification the interleaved
-    file store is linearizable to ([ConcFile.fseq_exec], theorem file_linearizable) is the abstract store
+(** C09 x C07 — the file store: the sequential specification the interleaved
+    file store is linearizable to ([ConcFile.fseq_exec], theorem file_linearizable) IS the abstract store
     [StoreSpec.exec_spec] without cap and size limit — the hypotheses under which C07 proves
     [file_refines_spec] (c_max = 0; ids fresh), plus c_cap = 0 because the concurrency model of the file store
     has no cap.  What differs and is bridged in the statement:
@@ -8,8 +8,9 @@
       among the ids issued to this mailbox so far" ([hd_iss], the inverse of C07's [resolve]);
     * a delivery's answer is compared up to the id ([C.RId 0] on both sides). *)
 From Coq Require Import List Arith Lia NArith ZArith.
-From IV Require Import Base.Bytes Model.StoreSpec Model.StoreSpecImpl Proofs.ConcC07Mem.
-From IV Require Model.Conc Model.ConcFile.
+From Coq Require Import Sorted ZifyN ZifyNat ZifyBool.
+From IV Require Import Base.Bytes Model.StoreSpec Model.StoreSpecImpl Proofs.StoreSpecFacts Proofs.StoreSpecRefine Proofs.ConcC07Mem.
+From IV Require Model.Conc Model.ConcFile Proofs.ConcBase Proofs.ConcFileInv Proofs.ConcFileLin Proofs.ConcFileLogOps.
 Import ListNotations.
 
 Module F := IV.Model.ConcFile.
@@ -45,6 +46,359 @@ Definition file_spec_is_storespec_stmt : Prop :=
   forall ops, Forall no_visit ops ->
     map shape (snd (F.fseq_run ([], 0%N) ops)) =
     map shape (map down_obs (map fst (run_spec {| c_cap := 0%nat; c_max := 0%N |} spec_init (up_file [] 0%N ops)))).
+
+(* ------------------------------------------------------------------ proof *)
+
+Local Open Scope nat_scope.
+
+Definition fmsg (m : C.msg) : N * msg := (C.m_id m, cmsg m).
+Definition idof (iss : issued_f) (mb : N) (k : nat) : N := nth k (iss_get mb iss) 0%N.
+Definition afind := al_find N N.eqb.
+Definition aremove := al_remove N N.eqb.
+Definition aseen := al_seen N N.eqb.
+
+Lemma afind_fmsg i l : afind i (map fmsg l) = option_map cmsg (C.find_msg i l).
+Proof.
+  induction l as [|m l IH]; [reflexivity|]. cbn [map C.find_msg]. unfold afind in *. cbn [al_find fmsg].
+  rewrite N.eqb_sym. destruct (C.m_id m =? i)%N; [reflexivity | exact IH].
+Qed.
+Lemma aremove_fmsg i l : aremove i (map fmsg l) = map fmsg (C.del_msg i l).
+Proof.
+  induction l as [|m l IH]; [reflexivity|]. cbn [map C.del_msg]. unfold aremove in *. cbn [al_remove fmsg].
+  rewrite N.eqb_sym. destruct (C.m_id m =? i)%N; [reflexivity|]. cbn [map]. now rewrite IH.
+Qed.
+Lemma aseen_fmsg i l : aseen i (map fmsg l) = map fmsg (C.mark_seen i l).
+Proof.
+  induction l as [|m l IH]; [reflexivity|]. cbn [map C.mark_seen]. unfold aseen in *. cbn [al_seen fmsg].
+  rewrite N.eqb_sym. destruct (C.m_id m =? i)%N; [reflexivity|]. cbn [map]. now rewrite IH.
+Qed.
+
+Lemma Neqb_eq a b : N.eqb a b = true <-> a = b.
+Proof. apply N.eqb_eq. Qed.
+
+Lemma pos_of_some i L k : pos_of i L = Some k -> k < length L /\ nth k L 0%N = i.
+Proof.
+  revert k; induction L as [|j L IH]; intros k; cbn [pos_of]; [discriminate|].
+  destruct (i =? j)%N eqn:E.
+  - intros H; inversion H; subst. apply N.eqb_eq in E. cbn. split; [lia | congruence].
+  - destruct (pos_of i L) as [k'|]; [|discriminate]. cbn [option_map]. intros H; inversion H; subst.
+    destruct (IH k' eq_refl). cbn. split; [lia | assumption].
+Qed.
+Lemma pos_of_none i L : pos_of i L = None -> ~ In i L.
+Proof.
+  induction L as [|j L IH]; cbn [pos_of]; [tauto|]. destruct (i =? j)%N eqn:E; [discriminate|].
+  destruct (pos_of i L); [discriminate|]. intros _ [H|H]; [apply N.eqb_neq in E; congruence | now apply IH].
+Qed.
+
+Record RF (S : F.fspec) (iss : issued_f) (st : spec_store) : Prop := {
+  rf_box : forall mb, map fmsg (F.smsgs mb S) = rep N (idof iss mb) (box (nm mb) (live st));
+  rf_cnt : forall mb, count_of (nm mb) (counts st) = length (iss_get mb iss);
+  rf_nd : forall mb, NoDup (iss_get mb iss);
+  rf_fresh : forall mb i, In i (iss_get mb iss) -> (i <= snd S)%N;
+  rf_inv : SInv st
+}.
+
+Section FSteps.
+  Variables (S : F.fspec) (iss : issued_f) (st : spec_store).
+  Hypothesis HR : RF S iss st.
+
+  Lemma idof_inj mb a b : a < length (iss_get mb iss) -> b < length (iss_get mb iss) -> idof iss mb a = idof iss mb b -> a = b.
+  Proof. intros Ha Hb H. unfold idof in H. eapply NoDup_nth; eauto. apply (rf_nd _ _ _ HR). Qed.
+
+  Lemma box_lt mb e : In e (box (nm mb) (live st)) -> e_k e < length (iss_get mb iss).
+  Proof.
+    intros He. apply box_in in He. destruct He as [He Hm]. destruct (rf_inv _ _ _ HR) as [_ H2].
+    specialize (H2 e He). rewrite Hm in H2. now rewrite (rf_cnt _ _ _ HR) in H2.
+  Qed.
+
+  Lemma box_sorted mb : StronglySorted klt (box (nm mb) (live st)).
+  Proof. destruct (rf_inv _ _ _ HR) as [H1 _]. apply H1. Qed.
+
+  (** What a Conc id means: the handle of its position among the ids issued to the mailbox. *)
+  Lemma find_by_id mb i :
+    option_map cmsg (C.find_msg i (F.smsgs mb S)) =
+    option_map e_msg (find_h (nm mb) (hd_iss iss mb i) (live st)).
+  Proof.
+    rewrite <- afind_fmsg, (rf_box _ _ _ HR). unfold hd_iss.
+    destruct (pos_of i (iss_get mb iss)) as [k|] eqn:Ep.
+    - destruct (pos_of_some _ _ _ Ep) as [Hk Hn]. cbn [find_h]. rewrite find_box.
+      replace i with (idof iss mb k) by exact Hn. unfold afind.
+      apply (rep_find N N.eqb Neqb_eq (idof iss mb) (length (iss_get mb iss)) (idof_inj mb)); [exact Hk | apply box_lt].
+    - cbn [find_h option_map]. pose proof (pos_of_none _ _ Ep) as Hni.
+      assert (G : forall sb, (forall e, In e sb -> e_k e < length (iss_get mb iss)) -> afind i (rep N (idof iss mb) sb) = None).
+      { induction sb as [|e sb IH]; intros Hb; [reflexivity|]. cbn [rep map]. unfold afind. cbn [al_find].
+        destruct (i =? idof iss mb (e_k e))%N eqn:E.
+        - apply N.eqb_eq in E. exfalso. apply Hni. rewrite E. unfold idof. apply nth_In. apply Hb. now left.
+        - apply IH. intros x Hx. apply Hb. now right. }
+      apply G. apply box_lt.
+  Qed.
+
+  Definition cfg00 : scfg := {| c_cap := 0; c_max := 0 |}.
+
+  Lemma smsgs_aset_same mb l : F.smsgs mb (C.aset mb l (fst S), snd S) = l.
+  Proof. unfold F.smsgs; cbn [fst]. now rewrite ConcBase.aget_aset_same. Qed.
+  Lemma smsgs_aset_other mb mb' l : mb' <> mb -> F.smsgs mb' (C.aset mb l (fst S), snd S) = F.smsgs mb' S.
+  Proof. intros H. unfold F.smsgs; cbn [fst]. now rewrite ConcBase.aget_aset_other. Qed.
+
+  Lemma nm_neq mb mb' : mb' <> mb -> nm mb' <> nm mb.
+  Proof. intros H E. apply nm_inj in E. congruence. Qed.
+
+  (** Updating one mailbox on both sides (same issued table, same counters). *)
+  Lemma RF_update mb l live' :
+    map fmsg l = rep N (idof iss mb) (box (nm mb) live') ->
+    (forall mb', mb' <> mb -> box (nm mb') live' = box (nm mb') (live st)) ->
+    SInv {| live := live'; counts := counts st |} ->
+    RF (C.aset mb l (fst S), snd S) iss {| live := live'; counts := counts st |}.
+  Proof.
+    intros Hb Ho Hi. destruct HR as [H1 H2 H3 H4 H5]. constructor; cbn [live counts snd]; auto.
+    intros mb'. destruct (N.eq_dec mb' mb) as [->|Hne].
+    - rewrite smsgs_aset_same. exact Hb.
+    - rewrite smsgs_aset_other by exact Hne. rewrite Ho by exact Hne. apply H1.
+  Qed.
+
+  Lemma step_get_f mb i :
+    let '(S', r) := F.fseq_exec S (C.OGet mb i) in
+    let '(st', ob, _) := exec_spec cfg00 st (Get (nm mb) (hd_iss iss mb i)) in
+    RF S' iss st' /\ shape r = shape (down_obs ob).
+  Proof.
+    cbn [F.fseq_exec]. pose proof (find_by_id mb i) as Hf.
+    assert (Hex : exec_spec cfg00 st (Get (nm mb) (hd_iss iss mb i)) =
+                  (st, OGet (res_of_find (find_h (nm mb) (hd_iss iss mb i) (live st))), [])).
+    { unfold hd_iss. destruct (pos_of i (iss_get mb iss)); reflexivity. }
+    rewrite Hex. split; [exact HR|]. unfold C.box_get. cbn [C.b_msgs].
+    destruct (C.find_msg i (F.smsgs mb S)) as [m|]; destruct (find_h (nm mb) (hd_iss iss mb i) (live st)) as [e|];
+      cbn [option_map] in Hf; try discriminate; cbn [res_of_find down_obs shape view_of snd]; [|reflexivity].
+    inversion Hf as [Hm]. reflexivity.
+  Qed.
+
+  Lemma msgs_are mb : map cmsg (F.smsgs mb S) = map e_msg (box (nm mb) (live st)).
+  Proof.
+    pose proof (f_equal (map snd) (rf_box _ _ _ HR mb)) as H. unfold rep in H. rewrite !map_map in H. exact H.
+  Qed.
+
+  Lemma step_latest_f mb :
+    let '(S', r) := F.fseq_exec S (C.OLatest mb) in
+    let '(st', ob, _) := exec_spec cfg00 st (Get (nm mb) Latest) in
+    RF S' iss st' /\ shape r = shape (down_obs ob).
+  Proof.
+    cbn [F.fseq_exec exec_spec]. split; [exact HR|]. unfold C.box_latest. cbn [C.b_msgs].
+    pose proof (msgs_are mb) as Hm.
+    assert (Hl : option_map cmsg (C.last_msg (F.smsgs mb S)) = option_map e_msg (last_opt (box (nm mb) (live st)))).
+    { rewrite <- (last_opt_map e_msg), <- Hm. clear. induction (F.smsgs mb S) as [|m l IH]; [reflexivity|].
+      destruct l as [|m' l]; [reflexivity|]. exact IH. }
+    destruct (C.last_msg (F.smsgs mb S)) as [m|]; destruct (last_opt (box (nm mb) (live st))) as [e|];
+      cbn [option_map] in Hl; try discriminate; cbn [res_of_find down_obs shape view_of snd]; [|reflexivity].
+    inversion Hl as [Hx]. reflexivity.
+  Qed.
+
+  Lemma step_list_f mb :
+    let '(S', r) := F.fseq_exec S (C.OList mb) in
+    let '(st', ob, _) := exec_spec cfg00 st (Lst (nm mb)) in
+    RF S' iss st' /\ shape r = shape (down_obs ob).
+  Proof.
+    cbn [F.fseq_exec exec_spec]. split; [exact HR|]. unfold C.box_list. cbn [C.b_msgs down_obs shape]. f_equal.
+    pose proof (f_equal (map (fun m => (m_tag m, m_seen m))) (msgs_are mb)) as H. rewrite !map_map in H.
+    unfold C.view_of. rewrite map_map. exact H.
+  Qed.
+
+  Lemma find_kth_k mb k e : find (is_ent (nm mb) k) (live st) = Some e -> e_k e = k /\ In e (box (nm mb) (live st)).
+  Proof.
+    intros H. destruct (find_some_in _ _ _ H) as [Hin Hf]. unfold is_ent in Hf. apply andb_true_iff in Hf. destruct Hf as [H1 H2].
+    apply Nat.eqb_eq in H2. split; [exact H2|]. apply box_in. split; [exact Hin|]. now apply ent_in_eq.
+  Qed.
+
+  Lemma SInv_after o : SInv (fst (fst (exec_spec cfg00 st o))).
+  Proof. apply exec_spec_SInv. apply (rf_inv _ _ _ HR). Qed.
+
+  Lemma step_seen_f mb i :
+    let '(S', r) := F.fseq_exec S (C.OSeen mb i) in
+    let '(st', ob, _) := exec_spec cfg00 st (Seen (nm mb) (hd_iss iss mb i)) in
+    RF S' iss st' /\ shape r = shape (down_obs ob).
+  Proof.
+    cbn [F.fseq_exec]. pose proof (find_by_id mb i) as Hf. pose proof (SInv_after (Seen (nm mb) (hd_iss iss mb i))) as HI.
+    unfold hd_iss in *. destruct (pos_of i (iss_get mb iss)) as [k|] eqn:Ep; cbn [exec_spec find_h] in *.
+    - destruct (pos_of_some _ _ _ Ep) as [Hk Hi].
+      destruct (find (is_ent (nm mb) k) (live st)) as [e|] eqn:Ef; destruct (C.find_msg i (F.smsgs mb S)) as [m|] eqn:Em;
+        cbn [option_map] in Hf; try discriminate; cbn [fst snd] in *.
+      + destruct (find_kth_k _ _ _ Ef) as [Hek _]. rewrite Hek in *. split; [|reflexivity].
+        apply RF_update; [| intros mb' Hne; apply box_seen_other; now apply nm_neq | exact HI].
+        rewrite <- aseen_fmsg, (rf_box _ _ _ HR), box_seen_same. rewrite <- Hi.
+        apply (rep_seen N N.eqb Neqb_eq (idof iss mb) (length (iss_get mb iss)) (idof_inj mb)); [exact Hk | apply box_lt | apply box_sorted].
+      + split; [exact HR | reflexivity].
+    - destruct (C.find_msg i (F.smsgs mb S)); cbn [option_map] in Hf; try discriminate. split; [exact HR | reflexivity].
+  Qed.
+
+  Lemma step_remove_f mb i :
+    let '(S', r) := F.fseq_exec S (C.ORemove mb i) in
+    let '(st', ob, _) := exec_spec cfg00 st (Remove (nm mb) (hd_iss iss mb i)) in
+    RF S' iss st' /\ shape r = shape (down_obs ob).
+  Proof.
+    cbn [F.fseq_exec]. pose proof (find_by_id mb i) as Hf. pose proof (SInv_after (Remove (nm mb) (hd_iss iss mb i))) as HI.
+    unfold hd_iss in *. destruct (pos_of i (iss_get mb iss)) as [k|] eqn:Ep; cbn [exec_spec find_h] in *.
+    - destruct (pos_of_some _ _ _ Ep) as [Hk Hi].
+      destruct (find (is_ent (nm mb) k) (live st)) as [e|] eqn:Ef; destruct (C.find_msg i (F.smsgs mb S)) as [m|] eqn:Em;
+        cbn [option_map] in Hf; try discriminate; cbn [fst snd] in *.
+      + destruct (find_kth_k _ _ _ Ef) as [Hek _]. rewrite Hek in *. split; [|reflexivity].
+        apply RF_update; [| intros mb' Hne; apply box_remove_other; now apply nm_neq | exact HI].
+        rewrite <- aremove_fmsg, (rf_box _ _ _ HR), box_remove_same. rewrite <- Hi.
+        apply (rep_remove N N.eqb Neqb_eq (idof iss mb) (length (iss_get mb iss)) (idof_inj mb)); [exact Hk | apply box_lt | apply box_sorted].
+      + split; [exact HR | reflexivity].
+    - destruct (C.find_msg i (F.smsgs mb S)); cbn [option_map] in Hf; try discriminate. split; [exact HR | reflexivity].
+  Qed.
+
+  Lemma step_purge_f mb :
+    let '(S', r) := F.fseq_exec S (C.OPurge mb) in
+    let '(st', ob, _) := exec_spec cfg00 st (Purge (nm mb)) in
+    RF S' iss st' /\ shape r = shape (down_obs ob).
+  Proof.
+    cbn [F.fseq_exec exec_spec]. pose proof (SInv_after (Purge (nm mb))) as HI. cbn [exec_spec fst] in HI.
+    split; [|reflexivity].
+    apply RF_update; [| intros mb' Hne; apply box_purge_other; now apply nm_neq | exact HI].
+    rewrite box_purge_same. reflexivity.
+  Qed.
+
+  Lemma iss_get_same mb l : iss_get mb (C.aset mb l iss) = l.
+  Proof. unfold iss_get. now rewrite ConcBase.aget_aset_same. Qed.
+  Lemma iss_get_other mb mb' l : mb' <> mb -> iss_get mb' (C.aset mb l iss) = iss_get mb' iss.
+  Proof. intros H. unfold iss_get. now rewrite ConcBase.aget_aset_other. Qed.
+
+  Lemma rep_ext_in (f g : nat -> N) sb : (forall e, In e sb -> f (e_k e) = g (e_k e)) -> rep N f sb = rep N g sb.
+  Proof. intros H. unfold rep. apply map_ext_in. intros e He. now rewrite (H e He). Qed.
+
+  Lemma smsgs_set_same mb l X n : F.smsgs mb (C.aset mb l X, n) = l.
+  Proof. unfold F.smsgs; cbn [fst]. now rewrite ConcBase.aget_aset_same. Qed.
+  Lemma smsgs_set_other mb mb' l X n n' : mb' <> mb -> F.smsgs mb' (C.aset mb l X, n) = F.smsgs mb' (X, n').
+  Proof. intros H. unfold F.smsgs; cbn [fst]. now rewrite ConcBase.aget_aset_other. Qed.
+  Lemma NoDup_snoc_l {A} (l : list A) a : NoDup l -> ~ In a l -> NoDup (l ++ [a]).
+  Proof.
+    intros Hn Hx. induction Hn as [|b l Hb Hl IH]; cbn; [constructor; [tauto | constructor]|].
+    constructor; [rewrite in_app_iff; cbn; intros [?|[?|[]]]; [tauto | subst; apply Hx; now left] | apply IH; intros H; apply Hx; now right].
+  Qed.
+
+  Lemma step_add_f mb tag size :
+    let '(S', r) := F.fseq_exec S (C.OAdd mb tag size) in
+    let '(st', ob, _) := exec_spec cfg00 st (Add (nm mb) 0%Z tag size) in
+    RF S' (C.aset mb (iss_get mb iss ++ [(snd S + 1)%N]) iss) st' /\ shape r = shape (down_obs ob) /\ snd S' = (snd S + 1)%N.
+  Proof.
+    pose proof (SInv_after (Add (nm mb) 0%Z tag size)) as HI.
+    cbn [F.fseq_exec]. cbn [exec_spec] in *. unfold spec_add in *. cbn [cfg00 c_cap c_max Nat.eqb N.eqb] in *. cbn [fst snd] in *.
+    split; [|split; reflexivity].
+    set (x := (snd S + 1)%N). set (k := count_of (nm mb) (counts st)).
+    set (e := {| e_mb := nm mb; e_k := k; e_msg := {| m_date := 0; m_tag := tag; m_size := size; m_seen := false |} |}).
+    assert (Hk : k = length (iss_get mb iss)) by apply (rf_cnt _ _ _ HR).
+    constructor; cbn [live counts snd fst].
+    - intros mb'. destruct (N.eq_dec mb' mb) as [->|Hne].
+      + rewrite smsgs_set_same, map_app, box_app. cbn [map]. unfold rep. rewrite map_app.
+        assert (Hbe : box (nm mb) [e] = [e]).
+        { unfold box. cbn [filter]. assert (ent_in (nm mb) e = true) as -> by (apply ent_in_eq; reflexivity). reflexivity. }
+        rewrite Hbe. cbn [map e_k e_msg e]. f_equal.
+        * rewrite (rf_box _ _ _ HR). apply rep_ext_in. intros e' He'. unfold idof. rewrite iss_get_same.
+          rewrite app_nth1 by (apply box_lt; exact He'). reflexivity.
+        * unfold fmsg, cmsg. cbn. f_equal. f_equal. unfold idof. rewrite iss_get_same, Hk, nth_middle. reflexivity.
+      + rewrite (smsgs_set_other mb mb' _ (fst S) _ (snd S)) by exact Hne. change (fst S, snd S) with (fst S, snd S). replace (fst S, snd S) with S by (destruct S; reflexivity). rewrite box_app.
+        assert (Hbe : box (nm mb') [e] = []).
+        { unfold box. cbn [filter]. assert (ent_in (nm mb') e = false) as -> by (apply ent_in_neq; cbn; intros E; apply nm_inj in E; congruence). reflexivity. }
+        rewrite Hbe, app_nil_r, (rf_box _ _ _ HR). apply rep_ext_in. intros e' He'. unfold idof. now rewrite iss_get_other.
+    - intros mb'. destruct (N.eq_dec mb' mb) as [->|Hne].
+      + rewrite count_bump_same, iss_get_same, app_length. cbn. fold k. lia.
+      + rewrite count_bump_other by (apply nm_neq; congruence). rewrite iss_get_other by exact Hne. apply (rf_cnt _ _ _ HR).
+    - intros mb'. destruct (N.eq_dec mb' mb) as [->|Hne].
+      + rewrite iss_get_same. apply NoDup_snoc_l; [apply (rf_nd _ _ _ HR)|].
+        intros Hin. pose proof (rf_fresh _ _ _ HR _ _ Hin). unfold x in *. lia.
+      + rewrite iss_get_other by exact Hne. apply (rf_nd _ _ _ HR).
+    - intros mb' i Hin. destruct (N.eq_dec mb' mb) as [->|Hne].
+      + rewrite iss_get_same in Hin. apply in_app_or in Hin. destruct Hin as [Hin|[<-|[]]]; [|unfold x; lia].
+        pose proof (rf_fresh _ _ _ HR _ _ Hin). lia.
+      + rewrite iss_get_other in Hin by exact Hne. pose proof (rf_fresh _ _ _ HR _ _ Hin). lia.
+    - exact HI.
+  Qed.
+End FSteps.
+
+Lemma run_sim_f : forall ops S iss st, RF S iss st -> Forall no_visit ops ->
+  map shape (snd (F.fseq_run S ops)) =
+  map shape (map down_obs (map fst (run_spec cfg00 st (up_file iss (snd S) ops)))).
+Proof.
+  induction ops as [|o ops IH]; intros S iss st HR Hv; [reflexivity|].
+  inversion Hv as [|? ? Ho Hrest]; subst.
+  cbn [F.fseq_run up_file].
+  destruct o as [mb tag size|mb i|mb|mb|mb i|mb i|mb|]; cbn [run_spec map].
+  - pose proof (step_add_f S iss st HR mb tag size) as H.
+    destruct (F.fseq_exec S (C.OAdd mb tag size)) as [S' r]. destruct (exec_spec cfg00 st (Add (nm mb) 0%Z tag size)) as [[st' ob] evs].
+    destruct H as (HR' & Hs & Hn). specialize (IH S' _ st' HR' Hrest). rewrite Hn in IH.
+    destruct (F.fseq_run S' ops) as [S2 rs]. cbn [snd map fst] in *. now rewrite Hs, IH.
+  - pose proof (step_get_f S iss st HR mb i) as H.
+    destruct (F.fseq_exec S (C.OGet mb i)) as [S' r] eqn:E1. destruct (exec_spec cfg00 st (Get (nm mb) (hd_iss iss mb i))) as [[st' ob] evs].
+    destruct H as (HR' & Hs). assert (Hn : snd S' = snd S) by (cbn in E1; inversion E1; reflexivity).
+    specialize (IH S' _ st' HR' Hrest). rewrite Hn in IH.
+    destruct (F.fseq_run S' ops) as [S2 rs]. cbn [snd map fst] in *. now rewrite Hs, IH.
+  - pose proof (step_latest_f S iss st HR mb) as H.
+    destruct (F.fseq_exec S (C.OLatest mb)) as [S' r] eqn:E1. destruct (exec_spec cfg00 st (Get (nm mb) Latest)) as [[st' ob] evs].
+    destruct H as (HR' & Hs). assert (Hn : snd S' = snd S) by (cbn in E1; inversion E1; reflexivity).
+    specialize (IH S' _ st' HR' Hrest). rewrite Hn in IH.
+    destruct (F.fseq_run S' ops) as [S2 rs]. cbn [snd map fst] in *. now rewrite Hs, IH.
+  - pose proof (step_list_f S iss st HR mb) as H.
+    destruct (F.fseq_exec S (C.OList mb)) as [S' r] eqn:E1. destruct (exec_spec cfg00 st (Lst (nm mb))) as [[st' ob] evs].
+    destruct H as (HR' & Hs). assert (Hn : snd S' = snd S) by (cbn in E1; inversion E1; reflexivity).
+    specialize (IH S' _ st' HR' Hrest). rewrite Hn in IH.
+    destruct (F.fseq_run S' ops) as [S2 rs]. cbn [snd map fst] in *. now rewrite Hs, IH.
+  - pose proof (step_seen_f S iss st HR mb i) as H.
+    destruct (F.fseq_exec S (C.OSeen mb i)) as [S' r] eqn:E1. destruct (exec_spec cfg00 st (Seen (nm mb) (hd_iss iss mb i))) as [[st' ob] evs].
+    destruct H as (HR' & Hs).
+    assert (Hn : snd S' = snd S) by (cbn in E1; destruct (C.find_msg i (F.smsgs mb S)); inversion E1; reflexivity).
+    specialize (IH S' _ st' HR' Hrest). rewrite Hn in IH.
+    destruct (F.fseq_run S' ops) as [S2 rs]. cbn [snd map fst] in *. now rewrite Hs, IH.
+  - pose proof (step_remove_f S iss st HR mb i) as H.
+    destruct (F.fseq_exec S (C.ORemove mb i)) as [S' r] eqn:E1. destruct (exec_spec cfg00 st (Remove (nm mb) (hd_iss iss mb i))) as [[st' ob] evs].
+    destruct H as (HR' & Hs).
+    assert (Hn : snd S' = snd S) by (cbn in E1; destruct (C.find_msg i (F.smsgs mb S)); inversion E1; reflexivity).
+    specialize (IH S' _ st' HR' Hrest). rewrite Hn in IH.
+    destruct (F.fseq_run S' ops) as [S2 rs]. cbn [snd map fst] in *. now rewrite Hs, IH.
+  - pose proof (step_purge_f S iss st HR mb) as H.
+    destruct (F.fseq_exec S (C.OPurge mb)) as [S' r] eqn:E1. destruct (exec_spec cfg00 st (Purge (nm mb))) as [[st' ob] evs].
+    destruct H as (HR' & Hs). assert (Hn : snd S' = snd S) by (cbn in E1; inversion E1; reflexivity).
+    specialize (IH S' _ st' HR' Hrest). rewrite Hn in IH.
+    destruct (F.fseq_run S' ops) as [S2 rs]. cbn [snd map fst] in *. now rewrite Hs, IH.
+  - exfalso. apply Ho. reflexivity.
+Qed.
+
+Lemma RF_init : RF ([], 0%N) [] spec_init.
+Proof.
+  constructor; cbn; auto.
+  - intros mb. constructor.
+  - intros mb i [].
+  - apply SInv_init.
+Qed.
+
+(** The sequential specification of the file-store concurrency model is the abstract store (no cap, no size
+    limit): same answers on every operation list (walks apart), an id being read as the handle of its position
+    among the ids issued to its mailbox, deliveries compared up to the id. *)
+Theorem file_spec_is_storespec : forall ops, Forall no_visit ops ->
+  map shape (snd (F.fseq_run ([], 0%N) ops)) =
+  map shape (map down_obs (map fst (run_spec {| c_cap := 0%nat; c_max := 0%N |} spec_init (up_file [] 0%N ops)))).
+Proof. intros ops Hv. exact (run_sim_f ops ([], 0%N) [] spec_init RF_init Hv). Qed.
+
+(** Linearizability of the file store with respect to the abstract store itself: the commit order of any
+    schedule of the file-store concurrency model, read as C07 operations (ids as handles of the issued table
+    built along that very order), is a [StoreSpec.run_spec] history with the committed results (deliveries up to
+    the id). Real-time consistency is file_commit_in_real_time. *)
+Module FL := IV.Proofs.ConcFileLin.
+Theorem file_linearizable_to_storespec : forall g ops sched s,
+  (F.frun (F.finit g ops) sched = F.FFin s \/ exists n, F.frun (F.finit g ops) sched = F.FBlockedAt n s) ->
+  map shape (map FL.flres (F.f_log s)) =
+  map shape (map down_obs (map fst (run_spec {| c_cap := 0%nat; c_max := 0%N |} spec_init
+                                              (up_file [] 0%N (map FL.flop (F.f_log s)))))).
+Proof.
+  intros g ops sched s Hr.
+  pose proof (FL.file_linearizable_holds g ops sched) as H.
+  pose proof (IV.Proofs.ConcFileInv.frun_from_reach (F.finit g ops) sched 0 _ (IV.Proofs.ConcFileInv.freach_refl _)) as R.
+  unfold F.frun in *.
+  assert (Hs : F.frun_from 0 (F.finit g ops) sched = F.FFin s \/ exists n, F.frun_from 0 (F.finit g ops) sched = F.FBlockedAt n s) by exact Hr.
+  assert (HR : IV.Proofs.ConcFileInv.freach (F.finit g ops) s /\ snd (F.fseq_run ([], 0%N) (map FL.flop (F.f_log s))) = map FL.flres (F.f_log s)).
+  { destruct Hs as [Hs|[n Hs]]; rewrite Hs in H, R; (split; [exact R | exact (proj1 H)]). }
+  destruct HR as [R' H1]. rewrite <- H1. apply file_spec_is_storespec.
+  pose proof (IV.Proofs.ConcFileLogOps.flog_no_walk _ _ _ R') as HF.
+  rewrite Forall_map. eapply Forall_impl; [|exact HF]. intros e He. exact He.
+Qed.
 
 (** Sanity: the statement holds on a history with two mailboxes, re-delivery after purge, a removal by id and
     mark-seen. *)
